@@ -589,11 +589,19 @@ func (c *SpecCtx) evalCall(x *ECall) *V {
 		return boolV(sel(u.heapGet(c.st, it.seenKey, arrSort(mk.ks, SBool)), u.keyTerm(k)))
 	case "allocated":
 		a := c.eval(x.Args[0])
-		return boolV(and(app(SBool, "<=", app(SInt, "root", a.T), c.st.alloc)))
+		at := a.T
+		if a.Sl != nil {
+			at = a.Sl.Arr
+		}
+		return boolV(and(app(SBool, "<=", app(SInt, "root", at), c.st.alloc)))
 	case "fresh":
 		// allocated during the call/function: above the entry watermark
 		a := c.eval(x.Args[0])
-		return boolV(app(SBool, ">", a.T, c.old.alloc))
+		at := a.T
+		if a.Sl != nil {
+			at = a.Sl.Arr
+		}
+		return boolV(app(SBool, ">", at, c.old.alloc))
 	case "hasprefix":
 		a, b := c.eval(x.Args[0]), c.eval(x.Args[1])
 		return boolV(and(app(SBool, "<=", strLen(b.T), strLen(a.T)), eq(strSub(a.T, intLit(0), strLen(b.T)), b.T)))
